@@ -520,6 +520,10 @@ class Interp(object):
             dyn = self.classref(c).dyn
             if attr in dyn:
                 v = dyn[attr]
+                if isinstance(v, staticmethod):
+                    return True, v.__func__
+                if isinstance(v, classmethod):
+                    return True, BoundMethod(v.__func__, self.classref(cls))
                 if isinstance(v, Closure) and via_instance is not None and not raw:
                     return True, BoundMethod(v, via_instance)
                 if isinstance(v, property) and via_instance is not None:
@@ -567,8 +571,13 @@ class Interp(object):
                 return v
             if isinstance(v, tuple) and len(v) == 2 and v[0] is True:
                 v = v[1]
-            if isinstance(v, Closure) and via_instance is not None and v.owner is not None \
-                    and _is_plain_method(v):
+            if isinstance(v, staticmethod):
+                return True, v.__func__
+            if isinstance(v, classmethod):
+                return True, BoundMethod(v.__func__, self.classref(cls))
+            if isinstance(v, Closure) and via_instance is not None and _is_plain_method(v):
+                # any function object found on the class is bound to the instance (the descriptor protocol does not ask where
+                # the function was defined: a method made by a factory, a lambda, a module level function stored on the class)
                 return True, BoundMethod(v, via_instance)
             if isinstance(v, property) and via_instance is not None:
                 # a property object built by a call (a factory of properties): the descriptor protocol applies
@@ -1890,6 +1899,18 @@ class Interp(object):
         def b_setattr(x, name, v):
             I.setattr(x, name, v)
 
+        def b_filter(pred, it):
+            # lazily, like the builtin; the truth of pred(v) is a decision of the program like the test of an `if`
+            # (undetermined values go to the branch oracle of the run, with the statement being executed as the place)
+            for v in I.iterate(it):
+                keep = v if pred is None else pred(v)
+                mod, node = I.cur if I.cur is not None else (None, None)
+                if node is None:
+                    if I.truth(keep, ast.Name(id='filter', ctx=ast.Load()), Frame(None)):
+                        yield v
+                elif I.truth(keep, node, Frame(mod)):
+                    yield v
+
         def b_sum(it, start=0):
             acc = start
             for v in I.iterate(it):
@@ -2005,11 +2026,11 @@ class Interp(object):
             'callable': b_callable, 'print': lambda *a, **k: None, 'sorted': sorted,
             'reversed': lambda x: reversed(list(I.iterate(x))), 'any': b_any, 'all': b_all,
             'map': lambda f, *its: map(f, *[I.iterate(i) for i in its]),
-            'filter': lambda f, it: filter(f, I.iterate(it)), 'round': b_round, 'divmod': b_divmod,
+            'filter': b_filter, 'round': b_round, 'divmod': b_divmod,
             'type': b_type, 'hash': b_hash, 'object': object, 'repr': b_repr, 'NotImplemented': NotImplemented,
             'True': True, 'False': False, 'None': None, 'complex': b_complex, 'slice': slice,
             'iter': lambda x: I.iterate(x), 'next': next, 'id': id, 'pow': s_pow,
-            'property': property, 'staticmethod': staticmethod, 'Ellipsis': Ellipsis,
+            'property': property, 'staticmethod': staticmethod, 'classmethod': classmethod, 'Ellipsis': Ellipsis,
             '__name__': '__analysed__', '__file__': '<analysed>',
         }
         for name in list(EXC_PARENTS) + ['BaseException', 'NameError']:
@@ -2176,6 +2197,8 @@ def _kw(call, name, pos):
 
 def _is_plain_method(clo):
     node = clo.node
+    if isinstance(node, ast.Lambda):
+        return True
     if not isinstance(node, ast.FunctionDef):
         return False
     decos = [ast.unparse(d) for d in node.decorator_list]
